@@ -19,7 +19,7 @@ PROPERTY = "C19"
 
 META = {
     "bounds": {
-        "quick": "18 probes x every single history item (26) + 120 VERIF_SEED-drawn histories of 2-3 items; history values hv (16 bit) and probe value pv (16 bit) symbolic; each job in a fresh process, probe run before and after the history; 8 probes with hand-derived expected output x every history item with the history run first (process never saw the probe)",
+        "quick": "20 probes x every single history item (26) + 120 VERIF_SEED-drawn histories of 2-3 items; history values hv (16 bit) and probe value pv (16 bit) symbolic; each job in a fresh process, probe run before and after the history; 8 probes with hand-derived expected output x every history item with the history run first (process never saw the probe)",
         "thorough": "15 probes x every history of <= 2 items + 300 drawn histories of 3",
     },
     "outside": ["histories longer than 3 assemblies", "state outside the Python process (files are virtual)"],
@@ -74,6 +74,8 @@ PROBES = {
     "undef-macro": ("low", "*=0x8000\nm(1)\n", {}),
     "undef-symbols": ("low", "*=0x8000\n.dw sym\n", {}),
     "undef-x": ("low", "*=0x8000\n.dw x + 1\n", {}),
+    "undef-in-symbol-definition": ("low", "*=0x8000\nvalue = missing + 1\n.dw value\n", {}),
+    "undef-macro-argument": ("low", "*=0x8000\n.macro um(q) {\n.dw q\n}\num(missing + pv)\n", {}),
     "no-table": ("low", "*=0x8000\n.text 'ab'\n", {}),
     "own-table": ("low", "*=0x8000\n.table 'p.tbl'\n.text 'ab'\nafter:\n.dl after\n", {"p.tbl": "01=a\n02=b\n"}),
     "own-incbin": ("low", "*=0x8000\n.incbin 'p.bin'\nafter:\n.dl after, p_bin, p_bin__size\n", {"p.bin": b"\x01\x02\x03"}),
